@@ -302,6 +302,9 @@ func symBinop(op token.Token, t types.Type, x, y value) value {
 		case token.MUL:
 			return lower(st.FBin(OFMul, a, b), t)
 		case token.QUO:
+			if q := st.path.fdivCut(a, b); q != nil {
+				return lower(q, t)
+			}
 			return lower(st.FBin(OFDiv, a, b), t)
 		case token.LSS:
 			return lower(st.Lt(a, b), nil)
